@@ -1,4 +1,4 @@
-CONSTANTS NC = 2 UseLock = FALSE MaxOps = 2 SchedLen = 7 OpFilter = "all"
+CONSTANTS NC = 2 UseLock = FALSE MaxOps = 2 SchedLen = 7 OpFilter = "all" DeferUnlock = TRUE
 SPECIFICATION Spec
 INVARIANTS EmitTorn
 CONSTRAINT StopWhenTorn
